@@ -74,11 +74,42 @@ func (c *Ctx) Count(name string) { c.Stats[name]++ }
 
 func (c *Ctx) State(fp string) { c.States[fp] = struct{}{} }
 
-// Violate records the first violation of the run.
+// Violate records a violation of the run. The run reports one: the first whose class is not a
+// listed known finding (SIM_KNOWN) -- so that a listed finding does not hide a different
+// violation of the same run -- or, when replaying, the one the replay file names; otherwise the
+// first.
 func (c *Ctx) Violate(oracle, sig, format string, a ...any) {
+	v := &Violation{Property: c.Property, Oracle: oracle, Sig: sig, Msg: fmt.Sprintf(format, a...)}
 	if c.viol == nil {
-		c.viol = &Violation{Property: c.Property, Oracle: oracle, Sig: sig, Msg: fmt.Sprintf(format, a...)}
+		c.viol = v
+		return
 	}
+	if rank(v) < rank(c.viol) {
+		c.viol = v
+	}
+}
+
+var (
+	preferClass  string // replay: the class the file names
+	knownClasses = func() map[string]bool {
+		m := map[string]bool{}
+		for _, k := range strings.Split(os.Getenv("SIM_KNOWN"), ",") {
+			if k != "" {
+				m[k] = true
+			}
+		}
+		return m
+	}()
+)
+
+func rank(v *Violation) int {
+	switch {
+	case preferClass != "" && v.Class() == preferClass:
+		return 0
+	case !knownClasses[v.Oracle+"/"+v.Sig]:
+		return 1
+	}
+	return 2
 }
 
 func (c *Ctx) Violated() bool { return c.viol != nil }
@@ -108,6 +139,10 @@ type Harness struct {
 	OneRunPerProcess bool
 	// WarpTo2026 sleeps the fake clock to 2026 before starting (clock-derived ids).
 	WarpTo2026 bool
+	// OnPanic, if set, receives a panic that reached the top frame of an instrumented goroutine
+	// (id, incarnation, value, stack) instead of the test process dying: the harness decides
+	// what the crash of that simulated process means.
+	OnPanic func(c *Ctx, id, inc int, p any, stack string)
 }
 
 // RunResult of one execution.
@@ -152,6 +187,9 @@ func Execute(t *testing.T, h *Harness, tape *simrt.Tape, trace bool) (rr RunResu
 			cfg := simrt.Config{Tape: tape, MaxSteps: h.MaxSteps, MaxSim: h.MaxSim, IdleLimit: h.IdleLimit, FixedStrategy: h.Enumerable}
 			if trace {
 				cfg.Trace = func(s string) { c.log = append(c.log, s) }
+			}
+			if h.OnPanic != nil {
+				cfg.OnPanic = func(id, inc int, p any, stack string) { h.OnPanic(c, id, inc, p, stack) }
 			}
 			s := simrt.New(cfg)
 			c.S = s
@@ -312,35 +350,35 @@ func clone(t []simrt.Decision) []simrt.Decision { return append([]simrt.Decision
 
 // BatchOut is what a worker writes for cmd/vcheck.
 type BatchOut struct {
-	Harness     string             `json:"harness"`
-	Property    string             `json:"property"`
-	Runs        int                `json:"runs"`
-	NonTrivial  int                `json:"nontrivial"`
-	Steps       int64              `json:"steps"`
-	Contended   int64              `json:"contended"`
-	SimSeconds  float64            `json:"sim_seconds"`
-	WallSeconds float64            `json:"wall_seconds"`
-	Stats       map[string]int     `json:"stats"`
-	Reasons     map[string]int     `json:"reasons"`
-	Distinct    []uint64           `json:"distinct"`     // hashes of (scenario, interleaving) of non-trivial runs
-	Interleaves []uint64           `json:"interleaves"`  // distinct interleaving hashes
-	States      []string           `json:"states"`       // distinct abstract states
-	Samples     []any              `json:"samples"`
-	Violations  []ViolationReport  `json:"violations"`
-	Nondeterm   []string           `json:"nondeterminism,omitempty"`
-	FirstSeed   uint64             `json:"first_seed"`
-	LastSeed    uint64             `json:"last_seed"`
+	Harness     string            `json:"harness"`
+	Property    string            `json:"property"`
+	Runs        int               `json:"runs"`
+	NonTrivial  int               `json:"nontrivial"`
+	Steps       int64             `json:"steps"`
+	Contended   int64             `json:"contended"`
+	SimSeconds  float64           `json:"sim_seconds"`
+	WallSeconds float64           `json:"wall_seconds"`
+	Stats       map[string]int    `json:"stats"`
+	Reasons     map[string]int    `json:"reasons"`
+	Distinct    []uint64          `json:"distinct"`    // hashes of (scenario, interleaving) of non-trivial runs
+	Interleaves []uint64          `json:"interleaves"` // distinct interleaving hashes
+	States      []string          `json:"states"`      // distinct abstract states
+	Samples     []any             `json:"samples"`
+	Violations  []ViolationReport `json:"violations"`
+	Nondeterm   []string          `json:"nondeterminism,omitempty"`
+	FirstSeed   uint64            `json:"first_seed"`
+	LastSeed    uint64            `json:"last_seed"`
 }
 
 type ViolationReport struct {
-	Seed      uint64     `json:"seed"`
-	Violation *Violation `json:"violation"`
-	Replay    string     `json:"replay"`
-	TapeLen   int        `json:"tape_len"`
-	ShrunkLen int        `json:"shrunk_len"`
-	Reproduced bool      `json:"reproduced"`
-	Known      bool      `json:"known"`
-	NeedsReplay bool     `json:"needs_replay,omitempty"`
+	Seed        uint64     `json:"seed"`
+	Violation   *Violation `json:"violation"`
+	Replay      string     `json:"replay"`
+	TapeLen     int        `json:"tape_len"`
+	ShrunkLen   int        `json:"shrunk_len"`
+	Reproduced  bool       `json:"reproduced"`
+	Known       bool       `json:"known"`
+	NeedsReplay bool       `json:"needs_replay,omitempty"`
 }
 
 func envInt(name string, def int64) int64 {
@@ -560,6 +598,7 @@ func replayMain(t *testing.T, h *Harness) {
 	if err := json.Unmarshal(b, &rf); err != nil {
 		t.Fatalf("replay: %v", err)
 	}
+	preferClass = rf.Class
 	tape := simrt.ReplayTape(rf.Seed, rf.Tape, true)
 	if rf.SeedOnly {
 		tape = simrt.NewTape(rf.Seed)
